@@ -61,6 +61,11 @@ CHECKS = {
    text="Proof on a translator-generated model: a field added to a struct but not copied by Jsoner/Dejsoner gets the Go zero value in the regenerated function and the round-trip theorem stops checking. Opcodes and shared instances are (name, identity) pairs; the registry, the dynamic-instruction families and Instantiate are parameters, the hypothesis 'registered' (every opcode resolves to itself by name) is what the harness checks for every opcode of every generated machine in a fresh process. Dynamic half: 36 (quick) / 400 machines incl. BASM output, shared objects, rsets* dynamic opcodes, threaded CPs, WordSize overrides. encoding/json is not modelled. Known finding: an unresolvable name is dropped silently.",
    design_ref="DESIGN.md section 5, C11",
    note="Trusted: Coq kernel; translators/gojson.py (validated by in-Coq evaluation against the Go methods each run); Front/Json.v loop-shape semantics; harness/c11.go reflect dump."),
+ "C14": dict(
+   technique="Coq model of the quantum-circuit compiler (layering, localQBits/localOrder swap bookkeeping, tensor products, undoing the swaps) over an arbitrary coefficient ring, evaluated exactly in Z[1/2][zeta8] and compared entry by entry with the matrices the Go code emits; reference unitary (gates embedded and multiplied in program order) computed exactly in Coq and independently in the harness; theorems on the model",
+   text="Model Front/Quantum.v transcribes QasmToBmMatrices / BmMatrixFromOperation / swaps2baseSwaps with basis states as bit lists; Front/Cyclo8.v gives exact arithmetic for every gate of the supported set with angles k*pi/2 (rotations) and k*pi/4 (phases). Each run: random circuits (1-4 qubits quick, 1-5 thorough; arbitrary distinct arguments, single two-qubit gate per layer, neighbours, dense two-qubit layers) are compiled by the Go code; every emitted matrix entry is compared with the exact model entry (tolerance 2e-5 against exact values), every emitted matrix is checked unitary, the product and every software-simulated basis state are compared with the reference unitary. The pre-fix code (original qubit numbers used as positions) is kept in the model as layer_matrix_old and refuted.",
+   design_ref="DESIGN.md section 5, C14",
+   note="Trusted: Coq kernel; Front/Quantum.v hand transcription, bit-list vs numeric index correspondence checked by the entrywise comparison; Front/Cyclo8.v gate table; float tolerance."),
 }
 NOT_APPLICABLE = []
 
